@@ -181,8 +181,12 @@ CHECKS = {
         'Base58 and the curve universally quantified and what each theorem assumes about them written in its statement. Theorems: bip38_roundtrip (every '
         'k in [1,n-1], flag, passphrase, prefix), bip38_ec_roundtrip, wrong_passphrase_checked / wrong_passphrase_no_other_key (a different key can only '
         'come out with a colliding 4-byte address hash), bip38_is_spec, bip38_intermediate_is_spec, fresh_entropy (the k-th default-relying call consumes '
-        'the k-th os.urandom chunk, for every call history), fresh_entropy_distinct. Tie: two-phase oracle protocol (driver asks, harness answers scrypt/AES '
-        'from hashlib and a FIPS-197 AES), published BIP38 vectors, all networks, unicode passphrases, counting os.urandom installed before import.',
+        'the k-th os.urandom chunk, for every call history), fresh_entropy_distinct; bip38_decrypt_is_spec (Key(s, password=pw) returns a key exactly when the BIP text decryption '
+        'does, plain and EC mode), passphrase_bytes_are_spec, passphrase_no_conflation, same_passphrase_same_key, passphrase_str_or_bytes, bip38_is_spec_arg. Tie: two-phase '
+        'oracle protocol (driver asks, harness answers scrypt/AES from hashlib and a FIPS-197 AES), published BIP38 vectors, all networks, an adversarial passphrase stream '
+        '(hex-looking text, digits, blanks, NUL, 64+ bytes, NFC-unstable, bytes objects) through every entry point; ciphertexts built by the judge (never by the library) '
+        'are decrypted with the right passphrase and with passphrases a library might conflate; two independent judges (Python BIP38 and the extracted Gallina spec); '
+        'counting os.urandom installed before import.',
    design_ref='DESIGN.md section 6 C15, section 9',
    note='Partial: freshness is a statement about WHICH draw each call uses; the quality of os.urandom is outside. scrypt/AES are oracles with the single '
         'hypothesis aes_dec k (aes_enc k b) = b; Base58 round trip and curve module laws are premises in the statements. Four known findings '
@@ -193,11 +197,14 @@ CHECKS = {
         'and Address/Key.address for every network of the regenerated table. Theorems: sqrt_exp_ok, fermat_little_Z (proved from the standard library), '
         'decompress_compress / compress_decompress (prime p as explicit premise), decompress_rejects_offcurve, import_range (accepted private key implies '
         '1 <= secret < n), import_public_on_curve, address_is_standard (P2PKH, P2SH-P2WPKH, P2WPKH, P2WSH: lib_address = spec_address for symbolic key bytes), '
-        'address_p2tr_of_output_key. Tie: boundary/sparse/random scalars and the refused set through every format, every public encoding, 250+ off-curve x, '
-        'all networks x script types x encodings; independent pure-Python curve/hash/address oracle.',
+        'address_p2tr_of_output_key; network_table_is_spec / network_table_diff_empty (the table regenerated from networks.json equals the frozen '
+        'specification table Model/SpecNetworks.v written from the reference clients chain parameters, SLIP-0132/0044 and BIP173/350: an edited row breaks a proof and '
+        'names the field), address_is_standard_frozen, address_by_name_is_standard, frozen_table_is_reference_except_deviations. Tie: boundary/sparse/random scalars and the refused set through every format, every public encoding, 250+ off-curve x, '
+        'every network x script type x encoding x entry point in the quick tier (three-way: library, extracted frozen Coq table, frozen Python table); independent '
+        'pure-Python curve/hash/address oracle whose version bytes come from harness/spec_networks.py, never from /repo.',
    design_ref='DESIGN.md section 6 C04, section 9',
    note='Primality of p and on_curve(d.G) are premises (no primality certificate checker / EC library installed); the group law is not proved; fastecdsa point '
-        'multiplication and the hash transcriptions are validated by correspondence. Four known findings; four defects repaired. Closed under the global context.',
+        'multiplication and the hash transcriptions are validated by correspondence. Five known findings (incl. regtest carrying mainnet version bytes); four defects repaired. Closed under the global context.',
    technique='Coq proof (number theory from the stdlib, finite table x symbolic bytes by vm_compute) + differential correspondence'),
  'C05': dict(
    text='dest/spec_lock_script/spec_classify from BIPs 13/16/141/173/350 and a mirror of Output.__init__, Script template instantiation (regenerated SCRIPT_TYPES), '
@@ -205,7 +212,8 @@ CHECKS = {
         'table and creation path: classify_lock / lock_classify (mutually inverse), lib_lock_is_spec (address string, hash, Address object, Address.parse '
         'paths), lib_inverse (standard script reported with exactly the standard type, address, network), foreign_network_refused, '
         'foreign_network_object_refused; table side conditions (prefix unambiguity, which networks share all prefixes) by vm_compute so an ambiguous table '
-        'edit breaks a proof. Tie: all networks x types x witness versions x lengths x creation paths, all 110 ordered network pairs.',
+        'edit breaks a proof; network_table_is_spec (regenerated prefix table = frozen specification table). Tie: all networks x types x witness versions x lengths x '
+        'creation paths, all 110 ordered network pairs; the oracle takes prefixes from the frozen table, never from /repo.',
    design_ref='DESIGN.md section 6 C05, section 9',
    note='The address STRING codec is abstract here (decoded content); strings are C11. public_key= and HDKey lock-script paths by correspondence only. Three '
         'defects repaired by fix: commits (witness version into script, foreign-network Address objects, p2sh-segwit Address objects). Closed under the global context.',
